@@ -1176,12 +1176,12 @@ void define_macro(char *name, char *buf) {
   // -D'F(x)=x+1' defines a function-like macro, as '#define F(x) x+1'
   // does.
   if (strchr(name, '(')) {
-    Token *tok = tokenize(new_file("<built-in>", 1, format("%s %s", name, buf)));
+    Token *tok = tokenize(new_file("<built-in>", 1, format("%s %s\n", name, buf)));
     read_macro_definition(&tok, tok);
     return;
   }
 
-  Token *tok = tokenize(new_file("<built-in>", 1, buf));
+  Token *tok = tokenize(new_file("<built-in>", 1, format("%s\n", buf)));
   add_macro(name, true, tok);
 }
 
